@@ -75,6 +75,10 @@ def gen(tier, seed):
                 if mode == "over":
                     inner = sorted({a + (b - a) * F(rnd.randint(1, 23), 24) for _ in range(m + 3)})[:m - n]
                     nodes = sorted(set(greville(U, p)) | set(inner) | {a, b})     # unisolvent by construction
+                    if rnd.random() < 0.4:
+                        # some parameters sampled twice or three times (with different data): still a least-squares problem
+                        nodes = sorted(nodes + rnd.sample(nodes, min(len(nodes), rnd.randint(1, 3))) + [rnd.choice(nodes)])
+                        case["repeated_nodes"] = True
                     case["nodes"] = fsl(nodes)
                     m = len(nodes)
                 case["Z"] = pts_json(rand_points(rnd, m, dim))
@@ -84,6 +88,9 @@ def gen(tier, seed):
                     continue
                 inner = sorted({a + (b - a) * F(rnd.randint(1, 23), 24) for _ in range(3 * m)})
                 nodes = sorted(set(greville(U, p)) | set(inner[:m - n + 2]))
+                if rnd.random() < 0.4:
+                    nodes = sorted(nodes + rnd.sample(nodes, min(len(nodes), rnd.randint(1, 3))))
+                    case["repeated_nodes"] = True
                 case["nodes"] = fsl(nodes)
                 case["P0"] = pts_json(rand_points(rnd, n, dim))
             elif mode == "function":
